@@ -306,7 +306,7 @@ func solveAll(c *Ctx, obls []*Obligation, dir string, timeoutMs, workers, seed i
 		go func(i int, o *Obligation) {
 			defer wg.Done()
 			defer func() { <-sem }()
-			if atomic.LoadInt32(&failedSoFar) >= maxFailuresPerRun {
+			if atomic.LoadInt32(&failedSoFar) >= maxFailuresPerRun && os.Getenv("GOVC_NOCAP") == "" {
 				// enough failed obligations to report: the rest of the run is not attempted (a
 				// broken tree must not cost one solver timeout per obligation)
 				out[i] = &Verdict{Obl: o, Status: "skipped"}
